@@ -201,7 +201,7 @@ def loop(ctx, P, iters):
         if e.kind == "assign":
             return e.d["target"] in ("self.current_time", tname, "self.times_to_deadlock") or e.d["target"].startswith("self.times_dictionary[")
         return e.kind in ("iter", "loopexit") and isinstance(e.node, ast.While)
-    w = Walker(P, sim, keep=keep, track=lambda t, f: True, inline=lambda ev: False, loop_iters=iters)
+    w = Walker(P, sim, keep=keep, track=lambda t, f: True, inline=rules.new_helper, loop_iters=iters)
     n_iter = 0
     done = set()
 
